@@ -127,8 +127,7 @@ def check(ctx, args):
                 ctx.fail(f[1], f[2][:600], {"case": c[:6000], "observed": f[2][:2000],
                                              "how": "vh c11 oracle < case : real Node/Fork/Chunk/Metadata objects, real journal file creation, then parseRunFilename/find/getFork/getChunk (and Metadata.cache for attempt sequences)"})
     e2e = {}
-    if thorough or os.environ.get("C11_E2E") == "1":
-        e2e = run_e2e(ctx)
+    e2e = run_e2e(ctx)
     kinds = {}
     for c in case_lines:
         kinds[c[0]] = kinds.get(c[0], 0) + 1
@@ -160,7 +159,7 @@ def run_e2e(ctx):
         return {}
     for n in ("jobmanagers", "adapters"):
         os.symlink(os.path.join(lib.REPO, n), os.path.join(d, n))
-    n = 40 if ctx.tier == "thorough" else 6
+    n = 40 if ctx.tier == "thorough" else (6 if os.environ.get("C11_E2E") == "1" else 2)
     p = ctx.vh_run(["c11", "e2e", d, str(ctx.seed), str(n)], timeout=3000)
     out = p.stdout.decode(errors="replace")
     runs = ok = 0
